@@ -8,6 +8,7 @@ ulimit -s unlimited 2>/dev/null || true
 mkdir -p work evidence replays
 ( cd coq && coq_makefile -f _CoqProject -o Makefile >/dev/null && timeout 3000 make -j16 ) 2>&1 | tail -5
 [ -f harness/Cargo.lock ] || cp /repo/Cargo.lock harness/Cargo.lock
+sed "s#@REPO@#${VERIF_REPO:-/repo}#" harness/Cargo.toml.in > harness/Cargo.toml
 ( cd harness && RUSTFLAGS="--cfg miniscript_verif" cargo build --release --offline ) 2>&1 | tail -3
 if [ -d ocaml ] && [ -f ocaml/build.sh ]; then ( cd ocaml && ./build.sh ) 2>&1 | tail -3; fi
 echo setup done
